@@ -202,7 +202,7 @@ type targ struct {
 }
 
 var optNames = []string{"columns", "entries_per_node", "node_cache_entries", "readonly", "s3_bucket", "s3_endpoint", "s3_prefix", "frobnicate"}
-var goodInts = []string{"10", "0", "4096", "0x10", "-3", "1"}
+var goodInts = []string{"10", "0", "4096", "0x10", "-3", "2"}
 var badInts = []string{"abc", "", "99999999999", "zz", "1e3", "1.5", "ten"}
 
 func (g *gen) genArgs(stats map[string]int, simple bool) ([]targ, []ctok) {
@@ -229,9 +229,12 @@ func (g *gen) genArgs(stats map[string]int, simple bool) ([]targ, []ctok) {
 			if g.r.Intn(4) > 0 || simple {
 				v := goodInts[g.r.Intn(len(goodInts))]
 				if simple {
-					v = []string{"10", "4096", "1"}[g.r.Intn(3)]
+					v = []string{"10", "4096", "2"}[g.r.Intn(3)]
 				}
 				a.text, a.val = optNames[k]+"="+v, "int t"
+			} else if k == 1 && g.r.Intn(4) == 0 {
+				a.text, a.val = optNames[k]+"=1", "int f" // a branch factor of 1 is refused (fix in /repo)
+				stats["c20_epn_one"]++
 			} else {
 				a.text, a.val = optNames[k]+"="+badInts[g.r.Intn(len(badInts))], "int f"
 				stats["c20_bad_int"]++
